@@ -371,6 +371,61 @@ func TestDeepChains(t *testing.T) {
 	rec.Exhaustive("chains of 1..300 BurstSamplers x Burst {1,3} x last NextSampler {none, Basic 1, Basic 2}: every burst spent in turn, in two windows")
 }
 
+// TestCopiedSamplers: a sampler value copied after it has been used (a configuration struct duplicated per
+// tenant, a logger option cloned) is a sampler of its own from then on: the copy starts from the state it
+// was copied with, and neither takes from the other's budget or cadence.
+func TestCopiedSamplers(t *testing.T) {
+	rapid.Check(t, func(rt *rapid.T) {
+		burst := rapid.IntRange(0, 1).Draw(rt, "kind") == 0
+		n := uint32(rapid.IntRange(1, 5).Draw(rt, "n"))
+		before := rapid.IntRange(0, 7).Draw(rt, "before")
+		who := rapid.SliceOfN(rapid.IntRange(0, 1), 1, 16).Draw(rt, "who")
+		clock = 5
+		var orig, cp zerolog.Sampler
+		spec := &Spec{Kind: "basic", N: n}
+		if burst {
+			spec = &Spec{Kind: "burst", Burst: n, Period: 1000}
+		}
+		mo := newModel(spec)
+		var desc []string
+		step := func(s zerolog.Sampler, m *model, name string, i int) {
+			got, want := s.Sample(zerolog.InfoLevel), m.sample(1, clock)
+			desc = append(desc, fmt.Sprintf("%s:%v", name, got))
+			if got != want {
+				c := map[string]interface{}{"spec": spec, "calls_before_copy": before, "then": who}
+				fail(rt, "copied", c, fmt.Sprintf("%+v copied after %d calls; call %d of the sequence %v returned %v, an independent sampler in that state returns %v", *spec, before, i, desc, got, want))
+			}
+		}
+		if burst {
+			o := &zerolog.BurstSampler{Burst: n, Period: 1000}
+			orig = o
+			for i := 0; i < before; i++ {
+				step(orig, mo, "orig", i)
+			}
+			c := *o
+			cp = &c
+		} else {
+			o := &zerolog.BasicSampler{N: n}
+			orig = o
+			for i := 0; i < before; i++ {
+				step(orig, mo, "orig", i)
+			}
+			c := *o
+			cp = &c
+		}
+		mc := *mo
+		for i, w := range who {
+			if w == 0 {
+				step(orig, mo, "orig", before+i)
+			} else {
+				step(cp, &mc, "copy", before+i)
+			}
+		}
+		b, _ := json.Marshal(map[string]interface{}{"spec": spec, "before": before, "who": who})
+		rec.Case(b, before > 0 && len(who) > 1, "copied-sampler")
+	})
+}
+
 func TestExhaustiveBasic(t *testing.T) {
 	var n int64
 	for N := uint32(0); N <= 9; N++ {
@@ -743,6 +798,14 @@ func TestCounterWrap(t *testing.T) {
 	for _, N := range []uint32{2, 3, 4, 7, 10, 16} {
 		s := &zerolog.BasicSampler{N: N}
 		f := reflect.ValueOf(s).Elem().FieldByName("counter")
+		if f.IsValid() && f.Kind() == reflect.Struct { // a typed atomic (atomic.Uint32): the word inside it
+			for i := 0; i < f.NumField(); i++ {
+				if f.Field(i).Kind() == reflect.Uint32 {
+					f = f.Field(i)
+					break
+				}
+			}
+		}
 		if !f.IsValid() || f.Kind() != reflect.Uint32 {
 			t.Fatalf("HARNESS-ERROR: BasicSampler has no uint32 field named counter")
 		}
